@@ -587,6 +587,27 @@ CHECKS = {
                 "a batch in which one action cancels the next).",
         "technique": "monitor contracts (rely/guarantee with a ghost runner token) and loop cuts by symbolic execution of the real class, SMT; native scenario replay",
     },
+    "C33": {
+        "text": "Function and closure contracts on the real AsyncIOScheduler and AsyncIOThreadSafeScheduler against the contract of an "
+                "asyncio loop (call_soon / call_soon_threadsafe / call_later hand back a handle; the loop's thread runs callbacks one at "
+                "a time in FIFO order, timers not before their delay on the loop clock, never a handle whose cancel() returned before it "
+                "started; handle.cancel() keeps that promise only on the loop's thread or while the loop is not running; only "
+                "call_soon_threadsafe may be used from other threads). Proved for every scenario - dispose() called by the loop thread, "
+                "by another thread that runs its own loop, by a plain thread; loop running or not; for the two-stage relative schedule "
+                "before or after the first stage ran: the schedule calls invoke nothing themselves and hand exactly one callback to the "
+                "loop (thread-safe scheduler: through call_soon_threadsafe); the action is invoked exactly once, with (scheduler, state), "
+                "on the loop's thread, after call_later(the positive delay); schedule_absolute = schedule_relative(due - now); every "
+                "handle.cancel() happens on the loop's thread or with the loop stopped; from another thread while the loop runs the "
+                "cancellation is handed to the loop and dispose() returns only after the future that the marshalled callback resolves "
+                "AFTER cancelling; no deadlock (nothing is waited for on the loop thread or with a stopped loop); once dispose() has "
+                "returned the loop - resumed and run to the end, all armed timers fired - never starts the action.",
+        "note": "The loop is an assumed contract (asyncio documentation), cross-checked natively in the thorough tier and on replay: "
+                "aiorun.py drives a real SelectorEventLoop with a virtual clock and a gate inside call_later, so the interleaving 'dispose() "
+                "from another thread while the first stage is arming the timer' is produced deterministically. That scenario failed on the "
+                "pinned tree for a plain disposing thread (fix 8dcc6bf). Interleavings are covered by the contract's serialisation "
+                "argument (all cancels and both stages run on one thread), not by enumeration. Time: integer ticks (A-time).",
+        "technique": "function / closure contracts by symbolic execution of the real schedulers against a contract of the asyncio loop, over all disposer-thread x loop-state x stage scenarios, SMT; gated native replay on a real loop",
+    },
     "C34": {
         "text": "The EventLoopScheduler contracts of C31 (never early: an entry leaves the queue only when due by a clock reading of that "
                 "critical section, also after a timed-out wait; never after cancellation: invoked only right after its own is_cancelled() "
